@@ -83,7 +83,8 @@ func c07Case(b *Batch, idx int) {
 	kind := backendKinds[rng.Intn(len(backendKinds))]
 	tc := c07TTLs[rng.Intn(len(c07TTLs))]
 	jit := c07Jitters[rng.Intn(len(c07Jitters))]
-	be := newBackend(kind, cache.Config{TimeToLive: tc.ttl, ExpirationJitter: jit})
+	strat := c16Strategies[rng.Intn(3)]
+	be := newBackend(kind, cache.Config{TimeToLive: tc.ttl, ExpirationJitter: jit, EvictionStrategy: strat})
 	keys := keyAlphabet(rng)
 	if len(keys) > 9 {
 		rng.Shuffle(len(keys), func(i, j int) { keys[i], keys[j] = keys[j], keys[i] })
@@ -98,7 +99,7 @@ func c07Case(b *Batch, idx int) {
 	tokN := 0
 	trace := uint64(1469598103934665603)
 	interesting := false
-	cfgName := fmt.Sprintf("%s/ttl=%s/jit=%v", kind, tc.name, jit)
+	cfgName := fmt.Sprintf("%s/ttl=%s/jit=%v/strategy=%d", kind, tc.name, jit, strat)
 	b.R.Eval()
 
 	fail := func(op, state, got, msg string) {
